@@ -256,16 +256,31 @@ def check(chk):
             for blk in _blocks(fn):
                 for i, st in enumerate(blk):
                     for sub in ast.walk(st) if not isinstance(st, (ast.If, ast.For, ast.While, ast.Try, ast.With, ast.Return)) else []:
-                        if isinstance(sub, ast.Subscript) and isinstance(sub.slice, ast.Slice) and isinstance(sub.slice.lower, ast.Name) \
-                                and isinstance(sub.slice.upper, ast.BinOp) and isinstance(sub.slice.upper.op, ast.Add) \
-                                and src(sub.slice.upper.left) == sub.slice.lower.id:
-                            cur = sub.slice.lower.id
-                            width = src(sub.slice.upper.right)
-                            nxt = blk[i + 1] if i + 1 < len(blk) else None
-                            good = isinstance(nxt, ast.AugAssign) and isinstance(nxt.op, ast.Add) and src(nxt.target) == cur and src(nxt.value) == width
-                            n_cursor += 1
-                            chk.judge(good, 'C01.cursor', st, '%s.%s: %s then %s += %s' % (c.name, name, src(sub), cur, width),
-                                      'after reading %s the cursor is not advanced by %s (next statement: %s)' % (src(sub), width, src(nxt)[:60] if nxt is not None else 'end of block'))
+                        if not (isinstance(sub, ast.Subscript) and isinstance(sub.slice, ast.Slice) and isinstance(sub.slice.lower, ast.Name) and sub.slice.upper is not None):
+                            continue
+                        cur = sub.slice.lower.id
+                        up = sub.slice.upper
+                        width = endname = None
+                        if isinstance(up, ast.BinOp) and isinstance(up.op, ast.Add) and src(up.left) == cur:
+                            width = src(up.right)
+                        elif isinstance(up, ast.Name):
+                            # the end offset held in a temporary: E = cur + W, set earlier in this block with the cursor untouched since
+                            for prev in reversed(blk[:i]):
+                                if isinstance(prev, (ast.Assign, ast.AugAssign)) and any(src(t) == cur for t in (prev.targets if isinstance(prev, ast.Assign) else [prev.target])):
+                                    break
+                                if isinstance(prev, ast.Assign) and len(prev.targets) == 1 and src(prev.targets[0]) == up.id and isinstance(prev.value, ast.BinOp) \
+                                        and isinstance(prev.value.op, ast.Add) and src(prev.value.left) == cur:
+                                    width, endname = src(prev.value.right), up.id
+                                    break
+                        if width is None:
+                            continue
+                        nxt = blk[i + 1] if i + 1 < len(blk) else None
+                        good = (isinstance(nxt, ast.AugAssign) and isinstance(nxt.op, ast.Add) and src(nxt.target) == cur and src(nxt.value) == width) or \
+                            (isinstance(nxt, ast.Assign) and len(nxt.targets) == 1 and src(nxt.targets[0]) == cur and
+                             (src(nxt.value) in ('%s + %s' % (cur, width), '%s + %s' % (width, cur)) or (endname is not None and src(nxt.value) == endname)))
+                        n_cursor += 1
+                        chk.judge(good, 'C01.cursor', st, '%s.%s: %s then %s advanced by %s' % (c.name, name, src(sub), cur, width),
+                                  'after reading %s the cursor is not advanced by %s (next statement: %s)' % (src(sub), width, src(nxt)[:60] if nxt is not None else 'end of block'))
     chk.require('C01.cursor', 8)
     # decoded maps index their entries by the key bytes as received; the container re-encodes looked-up keys with the version it is given
     # a timestamp value is a whole number of milliseconds, a datetime a whole number of microseconds: the reader does not pass through a float
